@@ -255,7 +255,11 @@ func genS(prop string) func(r *sim.Rng, tier string) any {
 				if r.Bool(0.25) && len(p.Keys) > 0 {
 					role = p.Keys[r.Intn(len(p.Keys))].Role
 				}
-				p.Faults = append(p.Faults, refagent.PeerFault{At: -1, OnKind: "list", Nth: r.Intn(8), Fault: refagent.ActPrefix + role})
+				prefix := refagent.ActPrefix
+				if r.Bool(0.4) {
+					prefix = refagent.ActAfterPrefix // right after the listing was answered: before the call's next request
+				}
+				p.Faults = append(p.Faults, refagent.PeerFault{At: -1, OnKind: "list", Nth: r.Intn(8), Fault: prefix + role})
 			}
 		}
 		slowC08 := prop == "C08" && r.Bool(0.12)
